@@ -33,6 +33,24 @@ theorem io_locale_independent (l l' : String) :
 
 /-- non-vacuity: there are open sites, and write() really opens the file -/
 example : openSites.length ≥ 2 ∧ writeProg.length = 5 := by decide
+
+/-! ## sequences of writes (corollaries, any previous file state) -/
+
+/-- what a successful write() leaves does not depend on what the destination held before (absent,
+empty, an older document): overwriting is complete, nothing of the old content survives -/
+theorem write_independent_of_old (s : String) (f f' : File) :
+    (runIO writeProg (some s) f).file = (runIO writeProg (some s) f').file := by
+  rw [write_content, write_content]
+
+/-- writing the same document again changes nothing -/
+theorem write_idempotent (s : String) (f : File) :
+    (runIO writeProg (some s) (runIO writeProg (some s) f).file).file = (runIO writeProg (some s) f).file := by
+  rw [write_content, write_content]
+
+/-- a failed write after a successful one leaves the successful one's file -/
+theorem failed_write_keeps_previous (s : String) (f : File) :
+    (runIO writeProg none (runIO writeProg (some s) f).file).file = (runIO writeProg (some s) f).file :=
+  write_atomic _
 end C17
 
 #print axioms C17.write_validates_first
@@ -41,3 +59,6 @@ end C17
 #print axioms C17.write_content
 #print axioms C17.open_sites_locale_free
 #print axioms C17.io_locale_independent
+#print axioms C17.write_independent_of_old
+#print axioms C17.write_idempotent
+#print axioms C17.failed_write_keeps_previous
